@@ -30,7 +30,7 @@ CASE_TIMEOUT = 30
 RULE = (
     "sampled product over set/unset time, grid, units, mask, two extra meta keys on producer and consumers x grid "
     "kinds (NoGrid with dims/shapes, uniform/rectilinear layouts compatible-but-different vs incompatible, points vs "
-    "cells, identical numbers in different coordinate reference systems (custom without EPSG code, registered, none), an unstructured mesh with as many cells as nodes (equal data shape, only the location differs), 1-d, unstructured) x unit pairs (equal, convertible, incompatible, unset) x mask kinds (FLEX, NONE, nomask, "
+    "cells, equal-shape structured grids whose axes differ along exactly one / every direction (shift, spacing; 2-d and 3-d), identical numbers in different coordinate reference systems (custom without EPSG code, registered, none), an unstructured mesh with as many cells as nodes (equal data shape, only the location differs), 1-d, unstructured) x unit pairs (equal, convertible, incompatible, unset) x mask kinds (FLEX, NONE, nomask, "
     "unset, explicit equal / equal-after-layout / different / all-false / wrong shape; also ONE array object shared by "
     "both ends on equal / different layouts, symmetric or not under the layout change) x fan-out 1-3 in every consumer "
     "order x adapter chains of length 0-2 from Scale, AvgOverTime, SumOverTime(per_time or not), RegridNearest(in/out "
@@ -71,6 +71,17 @@ CRS_OF = {"U43A": _LAEA_A, "U43Af": _LAEA_A, "U43B": _LAEA_B, "U43E": "EPSG:3263
           "T43A": _LAEA_A, "T43B": _LAEA_B}
 
 
+# grids with the data shape of U43 (resp. U432) whose axes differ from it along exactly ONE axis (shift or
+# spacing); U43s differs along both
+AXIS_VARIANTS = {
+    "U43x": {"dims": (4, 3), "origin": (10.0, 0.0)}, "U43y": {"dims": (4, 3), "origin": (0.0, 10.0)},
+    "U43sx": {"dims": (4, 3), "spacing": (2.0, 1.0)}, "U43sy": {"dims": (4, 3), "spacing": (1.0, 2.0)},
+    "R43y": {},
+    "U432": {"dims": (4, 3, 2)}, "U432z": {"dims": (4, 3, 2), "origin": (0.0, 0.0, 5.0)},
+    "U432xy": {"dims": (4, 3, 2), "origin": (3.0, 4.0, 0.0)},
+}
+
+
 def _grid_ctor(name):
     UG = fm.UniformGrid
     if name == "N0":
@@ -95,6 +106,11 @@ def _grid_ctor(name):
         return UG((5, 3))
     if name == "U43s":
         return UG((4, 3), origin=(10.0, 10.0))
+    if name in AXIS_VARIANTS:
+        kw = AXIS_VARIANTS[name]
+        if name == "R43y":
+            return fm.RectilinearGrid(axes=[np.array([0.0, 1.0, 2.0, 3.0]), np.array([0.0, 1.0, 3.0])])
+        return UG(kw["dims"], **{k: v for k, v in kw.items() if k != "dims"})
     if name in CRS_OF and name.startswith("U43"):
         if name == "U43Af":
             return UG((4, 3), axes_increase=[True, False], crs=CRS_OF[name])
@@ -144,6 +160,14 @@ GSPEC = {
     "U43p": _g(1, 10, 1, 2, False, [True, True], [4, 3]),
     "U53": _g(1, 11, 0, 2, False, [True, True], [4, 2]),
     "U43s": _g(1, 13, 0, 2, False, [True, True], [3, 2]),
+    "U43x": _g(1, 18, 0, 2, False, [True, True], [3, 2]),
+    "U43y": _g(1, 19, 0, 2, False, [True, True], [3, 2]),
+    "U43sx": _g(1, 25, 0, 2, False, [True, True], [3, 2]),
+    "U43sy": _g(1, 26, 0, 2, False, [True, True], [3, 2]),
+    "R43y": _g(1, 27, 0, 2, False, [True, True], [3, 2]),
+    "U432": _g(1, 30, 0, 3, False, [True, True, True], [3, 2, 1]),
+    "U432z": _g(1, 31, 0, 3, False, [True, True, True], [3, 2, 1]),
+    "U432xy": _g(1, 32, 0, 3, False, [True, True, True], [3, 2, 1]),
     "U43A": _g(1, 14, 0, 2, False, [True, True], [3, 2]),
     "U43Af": _g(1, 14, 0, 2, False, [True, False], [3, 2]),
     "U43B": _g(1, 15, 0, 2, False, [True, True], [3, 2]),
@@ -164,16 +188,25 @@ GSPEC = {
 CRS_PAIRS = [(a, b) for a in ("U43", "U43A", "U43B", "U43E", "U43E2") for b in ("U43", "U43A", "U43B", "U43E", "U43E2") if a != b] + [
     ("T43c", "T43A"), ("T43A", "T43c"), ("T43A", "T43B"), ("T43B", "T43A")]
 CRS_SAME = [("U43A", "U43A"), ("U43A", "U43Af"), ("U43Af", "U43A"), ("U43E", "U43E"), ("T43B", "T43B")]
+# same kind / dim / CRS / location / data shape; the axes agree along some but not all directions (or along none)
+AXIS_PAIRS = [(a, b) for a in ("U43", "U43x", "U43y", "U43sx", "U43sy", "U43s", "R43y", "R43", "U43f")
+              for b in ("U43", "U43x", "U43y", "U43sx", "U43sy", "U43s", "R43y")
+              if a != b and not (a in ("U43", "R43", "U43f") and b == "U43")] + [
+    ("U432", "U432z"), ("U432z", "U432"), ("U432", "U432xy"), ("U432xy", "U432z"), ("U432", "U432")]
 LOCATION_PAIRS = [("T43c", "T43p"), ("T43p", "T43c"), ("X", "Xp"), ("Xp", "X"), ("U43", "U43p"), ("U43p", "U43")]
-REAL_GRIDS = ["U43", "U43f", "U43r", "U43rf", "R43", "U43p", "U53", "U4", "U4f", "X", "X2", "Xp", "T43c", "T43p", "U43s"]  # have .crs
+REAL_GRIDS = ["U43", "U43f", "U43r", "U43rf", "R43", "U43p", "U53", "U4", "U4f", "X", "X2", "Xp", "T43c", "T43p", "U43s",
+              "U43x", "U43y", "U43sx", "U43sy", "R43y", "U432", "U432z", "U432xy"]  # have .crs
 SAME_GEOM = {
-    "U43": ["U43", "U43f", "U43r", "U43rf", "R43"], "U43f": ["U43", "U43f", "U43r", "U43rf", "R43"],
+    "U43": ["U43", "U43f", "U43r", "U43rf", "R43", "U43", "U43f", "U43r", "R43", "U43x", "U43sy"], "U43f": ["U43", "U43f", "U43r", "U43rf", "R43"],
     "U43r": ["U43", "U43f", "U43r", "U43rf", "R43"], "U43rf": ["U43", "U43f", "U43r", "U43rf", "R43"],
     "R43": ["U43", "U43f", "U43r", "U43rf", "R43"], "U4": ["U4", "U4f"], "U4f": ["U4", "U4f"],
     # same mesh; the second entry has another data location (a conflict), drawn now and then
     "T43c": ["T43c", "T43c", "T43c", "T43p"], "T43p": ["T43p", "T43p", "T43p", "T43c"],
     "X": ["X", "X", "X", "Xp"], "Xp": ["Xp", "Xp", "Xp", "X"],
     # same numbers; the last entries lie in another CRS (a conflict), drawn now and then
+    "U43x": ["U43x", "U43x", "U43x", "U43", "U43s"], "U43y": ["U43y", "U43y", "U43y", "U43", "U43sy"],
+    "U43sx": ["U43sx", "U43sx", "U43"], "U43sy": ["U43sy", "U43sy", "U43y"], "R43y": ["R43y", "R43y", "R43", "U43sy"],
+    "U432": ["U432", "U432", "U432", "U432z", "U432xy"], "U432z": ["U432z", "U432z", "U432"], "U432xy": ["U432xy", "U432xy", "U432"],
     "U43A": ["U43A", "U43Af", "U43A", "U43Af", "U43B", "U43"], "U43Af": ["U43A", "U43Af", "U43A", "U43B"],
     "U43B": ["U43B", "U43B", "U43B", "U43A"], "U43E": ["U43E", "U43E", "U43E", "U43E2"], "U43E2": ["U43E2", "U43E2", "U43E"],
     "T43A": ["T43A", "T43A", "T43A", "T43B", "T43c"], "T43B": ["T43B", "T43B", "T43A"],
@@ -1359,6 +1392,11 @@ CORPUS = [
     _case(_I(grid="T43A"), [(_I(grid="T43B"), [["scale"]])]),
     _case(_I(grid="U43"), [(_I(grid="U43A"), [])]),
     _case(_I(grid="U43A"), [(_I(grid="U43Af"), []), (_I(grid=None), [])], mode="comp", prod_pos=2),
+    # seeded o: same shape, axes differ along ONE direction only (shift along y / spacing along x / shift along z)
+    _case(_I(grid="U43"), [(_I(grid="U43y"), [])], mode="comp"),
+    _case(_I(grid="U43sx"), [(_I(grid="U43"), [["scale"]])]),
+    _case(_I(grid=None), [(_I(grid="U43"), []), (_I(grid="U43x"), [])]),
+    _case(_I(grid="U432"), [(_I(grid="U432z"), [])]),
     # producer info never pushed
     _case(None, [(_I(), [])]),
 ]
@@ -1478,6 +1516,18 @@ def generate(rng, tier):
                 cases.append(_case(_I(grid=a), [(_I(grid=b), chain)], mode=mode, prod_pos=len(chain)))
         cases.append(_case(_I(grid=a), [(_I(grid=a), []), (_I(grid=b), [["avg"]])], order=[1, 0] if len(a) % 2 else [0, 1]))
         cases.append(_case(_I(grid=None), [(_I(grid=a), []), (_I(grid=b), [])]))
+        for down in (False, True):
+            cases.append({"mode": "accepts", "self": _I(grid=a), "inc": _I(grid=b), "down": down})
+    # systematic part: structured grids of equal shape whose axes differ along exactly one direction (shift or
+    # spacing), along every direction, or not at all (other class / layout): refused unless ALL axes agree
+    for (a, b) in AXIS_PAIRS:
+        for chain in ([], [["scale"]]):
+            for mode in ("bare", "comp"):
+                cases.append(_case(_I(grid=a), [(_I(grid=b), chain)], mode=mode, prod_pos=len(chain)))
+        cases.append(_case(_I(grid=None), [(_I(grid=a), []), (_I(grid=b), [["avg"]])]))   # first consumer fixes the grid
+        cases.append(_case(_I(grid=None), [(_I(grid=a), []), (_I(grid=b), [])], mode="comp", prod_pos=1, order=[1, 0]))
+        cases.append(_case(_I(grid=a), [(_I(grid=None), [["regrid", None, b, None]])]))   # regridding onto it is fine
+        cases.append(_case(_I(grid=a), [(_I(grid=b), [["regrid", None, a, None]])]))      # target grid set, specs differ
         for down in (False, True):
             cases.append({"mode": "accepts", "self": _I(grid=a), "inc": _I(grid=b), "down": down})
     for (a, b) in LOCATION_PAIRS:
